@@ -96,3 +96,67 @@ Proof.
     as (a & cap & Hm & _ & _ & _ & _ & _ & Hv & _ & _ & _ & _ & _ & _ & _ & _ & Hcap & _).
   exists a, cap. repeat split; try assumption. now rewrite <- Hcap.
 Qed.
+
+(* ---- histories with graph maintenance events ---- *)
+Definition lo1000 : N := 1000 * 2 ^ 40.
+Definition hi_alias : N := 16000000 * 2 ^ 40.
+Definition runE (sa : bool) := run_events cfg0 ver0 fund0 script0 alias0 sa (init 99, false) 0.
+
+(* channel enters, node 1 announces itself; a block that closes nothing: both
+   stores keep everything, the history is clean (dirty = false) and the premise
+   of C20_node_ann_needs_channel is met by a further announcement *)
+Definition h_clean : list event :=
+  [EMsg 6000 5 (MCA ca0); EMsg 6000 5 (MNA na1); EOp (OConnect [])].
+Definition na1b := mkNA 1 7001 1072 72 true.
+Example ex_hist_clean :
+  snd (runE true h_clean) = false /\ snd (runE false h_clean) = false /\
+  alookup 1 (s_nodes (fst (step0 6000 5 9 (fst (runE true h_clean)) (MNA na1b))))
+    = Some (mkNode 7001 1072).
+Proof. vm_compute. repeat split; reflexivity. Qed.
+
+(* the block spends the funding output: the channel and both endpoints go (the
+   store sweeps in the same transaction), in both stores; still clean *)
+Example ex_hist_spend :
+  fst (runE true (h_clean ++ [EOp (OConnect [X])])) = init 99 /\
+  fst (runE false (h_clean ++ [EOp (OConnect [X])])) = init 99 /\
+  snd (runE false (h_clean ++ [EOp (OConnect [X])])) = false.
+Proof. vm_compute. repeat split; reflexivity. Qed.
+
+(* re-org of the funding block: the nodes linger (dirty); the next block sweeps
+   them in the KV store but not in the SQL store; a restart sweeps in both *)
+Definition h_reorg := h_clean ++ [EOp (ODisconnect 0 hi_alias)].
+Example ex_hist_reorg :
+  runE true h_reorg = (mkSt [] [(1, mkNode 7000 1070); (2, shell); (99, shell)] [] [] [] [] [] [], true) /\
+  runE true (h_reorg ++ [EOp (OConnect [])]) = (init 99, false) /\
+  snd (runE false (h_reorg ++ [EOp (OConnect [])])) = true /\
+  s_nodes (fst (runE false (h_reorg ++ [EOp (OConnect [])]))) =
+    [(1, mkNode 7000 1070); (2, shell); (99, shell)] /\
+  runE false (h_reorg ++ [EOp (OConnect []); ERestart]) = (init 99, false).
+Proof. vm_compute. repeat split; reflexivity. Qed.
+
+(* strict zombie pruning with edge 2 missing: only node 2 may resurrect.  The
+   wrong-direction signer (node 1 signing a direction-1 update) is refused, the
+   owner's update removes the entry and is parked: premises and conclusions of
+   C20_zombie_resurrection_authentic are met non-trivially *)
+Definition cu_d0 := mkCU 1 X 5000 1 0 40 1000 500000 10 1 0 1061 61.
+Definition st_z :=
+  apply_op true 99
+    (fst (runE true [EMsg 6000 5 (MCA ca0); EMsg 6000 5 (MCU cu_d0)]))
+    (ODelete X true true).
+Example ex_zombie_keys : alookup X (s_zombies st_z) = Some (0, 2) /\ s_edges st_z = [].
+Proof. vm_compute. split; reflexivity. Qed.
+
+Example ex_zombie_wrong_signer_refused :
+  snd (step0 6000 5 7 st_z (MCU cu_wrongdir)) = [(7, VErr EZombieSig, false)] /\
+  s_zombies (fst (step0 6000 5 7 st_z (MCU cu_wrongdir))) = s_zombies st_z.
+Proof. vm_compute. split; reflexivity. Qed.
+
+Example ex_zombie_owner_resurrects :
+  snd (step0 6000 5 7 st_z (MCU cu_late)) = [(7, VPending, false)] /\
+  alookup X (s_zombies (fst (step0 6000 5 7 st_z (MCU cu_late)))) = None.
+Proof. vm_compute. split; reflexivity. Qed.
+
+Example ex_zombie_dir0_blank_refused :
+  snd (step0 6000 5 7 st_z (MCU (mkCU 1 X 5003 1 0 40 1000 500000 10 1 0 1064 64))) =
+    [(7, VErr EZombieKey, false)].
+Proof. vm_compute. reflexivity. Qed.
